@@ -36,7 +36,11 @@ TimeCfg == { <<>>, <<[op |-> "BOffset", b |-> 0, claim |-> "exp", secs |-> WOf(3
              <<[op |-> "BOffset", b |-> 0, claim |-> "exp", secs |-> WBig(512, 1000)], [op |-> "BOffset", b |-> 0, claim |-> "nbf", secs |-> WOf(60)]>>,
              <<IntClaim("exp", WBig(60415, 3424639))>>, <<IntClaim("exp", WMax), IntClaim("nbf", WOf(-5))>>,
              \* the application's own iat with the automatic one switched off (and on: the library's wins)
-             <<[op |-> "BIat", b |-> 0, enable |-> 0], IntClaim("iat", WOf(1234567))>>, <<IntClaim("iat", WOf(1234567))>> }
+             <<[op |-> "BIat", b |-> 0, enable |-> 0], IntClaim("iat", WOf(1234567))>>, <<IntClaim("iat", WOf(1234567))>>,
+             \* "0 or less disables": switched on, then off again with 0 / -1
+             <<[op |-> "BOffset", b |-> 0, claim |-> "exp", secs |-> WOf(3600)], [op |-> "BOffset", b |-> 0, claim |-> "exp", secs |-> W0]>>,
+             <<[op |-> "BOffset", b |-> 0, claim |-> "exp", secs |-> W0], [op |-> "BOffset", b |-> 0, claim |-> "nbf", secs |-> W0]>>,
+             <<[op |-> "BOffset", b |-> 0, claim |-> "nbf", secs |-> WOf(-1)], [op |-> "BOffset", b |-> 0, claim |-> "exp", secs |-> WOf(-1)]>> }
 Script(k, a, p1, p2, hc, cc, tc) ==
   << OpsOp(p1), LoadOp(<<k, Pub(k)>>), BNewOp, BSetKeyOp(IF k.alg = NONE THEN a ELSE "none", 0), Tree("hdr", hc), Tree("clm", cc) >>
   \o tc \o
